@@ -1,4 +1,5 @@
 import MgpuProofs.C09Held2
+import MgpuProofs.C09Rej
 /-! # C09 — `HI` in every reachable state; no Go panic is reachable; held work-groups occupy disjoint
     resources; liveness without the "no fault" hypothesis -/
 namespace C09
@@ -80,56 +81,84 @@ theorem dispTick_HI (caps : List (List Nat)) (cp : CP) (i : Nat) (hdc : DCI cp) 
         exact key _ a b
     · simp only [hks]; exact key (cp, false) h hnf
 
-/-- the invariants of a reachable, fault-free state -/
+/-- the invariants of a reachable state: no Go panic of the bookkeeping was hit — the only fault that
+    can be present is the deliberate rejection of an oversize launch, which changes nothing else -/
 structure Safe (caps : List (List Nat)) (cp : CP) : Prop where
   dci : DCI cp
   inv : CPInv true caps cp
   hi : HI cp
   kq : KQ (fun k => k.wx ≤ 1024) cp.view
-  nf : cp.fault = none
+  nf : cp.fault = none ∨ cp.fault = some "oversize"
 
-theorem tickDispatchers_safe (caps : List (List Nat)) : ∀ (is : List Nat) (cp : CP), Safe caps cp →
-    Safe caps (tickDispatchers is cp).1 := by
+theorem Safe.notTwice {caps : List (List Nat)} {cp : CP} (h : Safe caps cp) : cp.fault ≠ some "twice" := by
+  rcases h.nf with e | e <;> rw [e] <;> simp
+
+theorem tickDispatchers_faulted : ∀ (is : List Nat) (cp : CP), cp.fault.isSome = true →
+    (tickDispatchers is cp).1 = cp := by
+  intro is cp hf
+  cases is with
+  | nil => rfl
+  | cons i is => simp only [tickDispatchers, hf, if_true]
+
+/-- from a fault-free state the dispatchers' ticks raise no fault -/
+theorem tickDispatchers_safe_nf (caps : List (List Nat)) : ∀ (is : List Nat) (cp : CP), Safe caps cp →
+    cp.fault = none → Safe caps (tickDispatchers is cp).1 ∧ (tickDispatchers is cp).1.fault = none := by
   intro is
   induction is with
-  | nil => intro cp h; exact h
+  | nil => intro cp h hnf; exact ⟨h, hnf⟩
   | cons i is ih =>
-    intro cp h
+    intro cp h hnf
     simp only [tickDispatchers]
-    have hf : ¬ cp.fault.isSome = true := by rw [h.nf]; simp
+    have hf : ¬ cp.fault.isSome = true := by rw [hnf]; simp
     simp only [hf]
-    apply ih
-    obtain ⟨a, b⟩ := dispTick_HI caps cp i h.dci h.inv h.hi (fun k hk => h.kq.2 i k hk) h.nf
-    exact ⟨dispTick_DCI cp i h.dci, dispTick_inv true caps cp i h.inv, a,
-      KQ_steps (dispTick_steps cp i h.dci) h.kq, b⟩
+    obtain ⟨a, b⟩ := dispTick_HI caps cp i h.dci h.inv h.hi (fun k hk => h.kq.2 i k hk) hnf
+    exact ih _ ⟨dispTick_DCI cp i h.dci, dispTick_inv true caps cp i h.inv, a,
+      KQ_steps (dispTick_steps cp i h.dci) h.kq, Or.inl b⟩ b
 
-theorem handleLaunch_HI (cp : CP) (h : HI cp) (hnf : cp.fault = none) :
-    HI (handleLaunch cp).1 ∧ (handleLaunch cp).1.fault = none := by
-  unfold handleLaunch
+theorem tickDispatchers_safe (caps : List (List Nat)) (is : List Nat) (cp : CP) (h : Safe caps cp) :
+    Safe caps (tickDispatchers is cp).1 := by
+  rcases h.nf with e | e
+  · exact (tickDispatchers_safe_nf caps is cp h e).1
+  · rw [tickDispatchers_faulted is cp (by rw [e]; rfl)]; exact h
+
+theorem handleLaunchOld_fault (cp : CP) : (handleLaunchOld cp).1.fault = cp.fault := by
+  unfold handleLaunchOld
+  cases cp.drvIn with
+  | nil => rfl
+  | cons k rest =>
+    cases findAvailable cp.disps with
+    | none => rfl
+    | some i => rfl
+
+theorem handleLaunch_HI (cp : CP) (h : HI cp) : HI (handleLaunch cp).1 := by
+  refine handleLaunch_ind (P := HI) cp ?_ (HI_frame cp _ h (fun _ => rfl) (fun _ => ⟨rfl, rfl⟩))
+  unfold handleLaunchOld
   cases hdr : cp.drvIn with
-  | nil => exact ⟨h, hnf⟩
+  | nil => exact h
   | cons k rest =>
     simp only []
     cases hfa : findAvailable cp.disps with
-    | none => exact ⟨h, hnf⟩
+    | none => exact h
     | some i =>
       simp only []
       have h1 : HI { cp with drvIn := rest } := HI_frame cp _ h (fun _ => rfl) (fun _ => ⟨rfl, rfl⟩)
-      exact ⟨HI_frame _ _ h1 (fun _ => rfl) (setDisp_holds _ i _ rfl rfl), hnf⟩
+      exact HI_frame _ _ h1 (fun _ => rfl) (setDisp_holds _ i _ rfl rfl)
 
 theorem handleLaunch_safe (caps : List (List Nat)) (cp : CP) (h : Safe caps cp) :
     Safe caps (handleLaunch cp).1 := by
-  obtain ⟨a, b⟩ := handleLaunch_HI cp h.hi h.nf
-  exact ⟨handleLaunch_DCI cp h.dci, handleLaunch_inv true caps cp h.inv, a,
-    KQ_steps (handleLaunch_steps cp) h.kq, b⟩
+  refine ⟨handleLaunch_DCI cp h.dci, handleLaunch_inv true caps cp h.inv h.notTwice, handleLaunch_HI cp h.hi,
+    KQ_steps (handleLaunch_steps cp) h.kq, ?_⟩
+  rcases handleLaunch_fault cp with e | e
+  · rw [e]; exact h.nf
+  · exact Or.inr e
 
 theorem cpTick_safe (caps : List (List Nat)) (cp : CP) (h : Safe caps cp) : Safe caps (cpTick cp).1 := by
   have h1 := tickDispatchers_safe caps (List.range cp.disps.length) cp h
   unfold cpTick
-  have hf : ¬ (tickDispatchers (List.range cp.disps.length) cp).1.fault.isSome = true := by
-    rw [h1.nf]; simp
-  simp only [hf]
-  exact handleLaunch_safe caps _ (handleLaunch_safe caps _ h1)
+  by_cases hf : (tickDispatchers (List.range cp.disps.length) cp).1.fault.isSome = true
+  · simp only [hf, if_true]; exact h1
+  · simp only [hf]
+    exact handleLaunch_safe caps _ (handleLaunch_safe caps _ h1)
 
 theorem step_safe (caps : List (List Nat)) (cp : CP) (op : Op) (h : Safe caps cp)
     (hop : ∀ k, op = .launch k → KernOK k ∧ k.wx ≤ 1024) : Safe caps (step cp op) := by
@@ -175,7 +204,8 @@ theorem mkCP_safe (caps : List (List Nat)) (cfg : Cfg) (nd : Nat) (pool : List C
     rcases hh with ⟨r, hr⟩ | hr
     · cases hr
     · cases hr
-  refine ⟨mkCP_DCI cfg nd pool, mkCP_inv true caps cfg nd pool hp (fun _ => hempty), ?_, mkCP_KQ _ cfg nd pool, rfl⟩
+  refine ⟨mkCP_DCI cfg nd pool, mkCP_inv true caps cfg nd pool hp (fun _ => hempty), ?_, mkCP_KQ _ cfg nd pool,
+    Or.inl rfl⟩
   refine ⟨fun j dl hh => absurd hh (hno j dl), fun j j' dl dl' hh => absurd hh (hno j dl), ?_⟩
   intro j
   unfold Disp.keys
@@ -187,6 +217,159 @@ theorem safe_run (caps : List (List Nat)) (cfg : Cfg) (nd : Nat) (pool : List CU
     (hempty : ∀ cu ∈ pool, cu.resident = []) (hp : PoolInv caps pool)
     (hops : ∀ k, Op.launch k ∈ ops → KernOK k ∧ k.wx ≤ 1024) : Safe caps (run (mkCP cfg nd pool) ops) :=
   run_safe caps ops _ (mkCP_safe caps cfg nd pool hempty hp) hops
+
+/-! ## every dispatching kernel passed the fit check; kernels that fit are never rejected -/
+
+/-- every resident work-group is held by a dispatcher, for that CU (`TI.tied` without its no-fault premise) -/
+def Tied (cp : CP) : Prop :=
+  ∀ c, ∀ e ∈ (cp.pool.getD c default).resident, ∃ j dl, dl.cu = c ∧ dl.key = e.1 ∧ Holds cp j dl
+
+theorem handleLaunch_tied {S} (cp : CP) (h : TI S cp) (hnf : cp.fault = none) : Tied (handleLaunch cp).1 := by
+  refine handleLaunch_ind (P := Tied) cp ?_ (h.tied hnf)
+  have h' : TI S (handleLaunchOld cp).1 := by
+    -- the pinned function keeps `TI` (same proof as for `handleLaunch`)
+    unfold handleLaunchOld
+    cases hdr : cp.drvIn with
+    | nil => exact h
+    | cons k rest =>
+      simp only []
+      cases hfa : findAvailable cp.disps with
+      | none => exact h
+      | some i =>
+        simp only []
+        have h1 : TI S { cp with drvIn := rest } := TI_frame cp _ h rfl (fun x => x) (fun j => ⟨rfl, rfl⟩)
+        exact TI_frame _ _ h1 rfl (fun x => x) (setDisp_holds _ i _ rfl rfl)
+  exact h'.tied (by rw [handleLaunchOld_fault]; exact hnf)
+
+theorem cpTick_faulted (cp : CP) (hf : cp.fault.isSome = true) : (cpTick cp).1 = cp := by
+  have e : (tickDispatchers (List.range cp.disps.length) cp).1 = cp := tickDispatchers_faulted _ cp hf
+  have hf' : (tickDispatchers (List.range cp.disps.length) cp).1.fault.isSome = true := by rw [e]; exact hf
+  unfold cpTick
+  simp only [hf', if_true]
+  exact e
+
+theorem cpTick_tied {S} (caps : List (List Nat)) (cp : CP) (hs : Safe caps cp) (ht : TI S cp) (h : Tied cp) :
+    Tied (cpTick cp).1 := by
+  rcases hs.nf with hnf | hnf
+  · obtain ⟨s1, f1⟩ := tickDispatchers_safe_nf caps (List.range cp.disps.length) cp hs hnf
+    have t1 := tickDispatchers_TI (List.range cp.disps.length) cp hs.dci ht
+    have d2 := handleLaunch_tied _ t1 f1
+    have t2 := handleLaunch_TI _ t1
+    unfold cpTick
+    have hf : ¬ (tickDispatchers (List.range cp.disps.length) cp).1.fault.isSome = true := by rw [f1]; simp
+    simp only [hf, Bool.false_eq_true, if_false]
+    rcases handleLaunch_fault (tickDispatchers (List.range cp.disps.length) cp).1 with e | e
+    · exact handleLaunch_tied _ t2 (by rw [e]; exact f1)
+    · rw [handleLaunch_fault_idem _ e f1]; exact d2
+  · rw [cpTick_faulted cp (by rw [hnf]; rfl)]; exact h
+
+/-- reachable-state invariants with the mask shapes `S` of the registered CUs: safe, residents tied to
+    holders, and every kernel a dispatcher is working on has `KernFits` (each of its work-groups fits
+    some CU of the pool when that CU is empty) — because `StartDispatching` checked its first work-group -/
+structure Acc (caps : List (List Nat)) (S : List (Option Nat × List (Option Nat) × Option Nat)) (cp : CP) :
+    Prop where
+  safe : Safe caps cp
+  ti : TI S cp
+  kd : KD (KernFits caps S) cp.view
+  /-- every resident work-group is held by a dispatcher — also in a state that carries the fault
+      "oversize" (a rejection changes nothing but the fault) -/
+  tied : Tied cp
+
+theorem cpTick_acc {S} (caps : List (List Nat)) (cp : CP) (h : Acc caps S cp) : Acc caps S (cpTick cp).1 := by
+  refine ⟨cpTick_safe caps cp h.safe, cpTick_TI cp h.safe.dci h.ti, ?_, cpTick_tied caps cp h.safe h.ti h.tied⟩
+  have s1 := tickDispatchers_safe caps (List.range cp.disps.length) cp h.safe
+  have t1 := tickDispatchers_TI (List.range cp.disps.length) cp h.safe.dci h.ti
+  have k1 := tickDispatchers_KD (Q := KernFits caps S) (List.range cp.disps.length) cp h.safe.dci h.kd
+  unfold cpTick
+  by_cases hf : (tickDispatchers (List.range cp.disps.length) cp).1.fault.isSome = true
+  · simp only [hf, if_true]; exact k1
+  · simp only [hf]
+    have k2 := handleLaunch_KD caps S _ (s1.inv.pool s1.notTwice) t1.shapes s1.inv.drv k1
+    have s2 := handleLaunch_safe caps _ s1
+    have t2 := handleLaunch_TI _ t1
+    exact handleLaunch_KD caps S _ (s2.inv.pool s2.notTwice) t2.shapes s2.inv.drv k2
+
+theorem step_acc {S} (caps : List (List Nat)) (cp : CP) (op : Op) (h : Acc caps S cp)
+    (hop : ∀ k, op = .launch k → KernOK k ∧ k.wx ≤ 1024) : Acc caps S (step cp op) := by
+  cases op with
+  | tick => exact cpTick_acc caps cp h
+  | launch k => exact ⟨step_safe caps cp _ h.safe hop, step_TI cp _ h.safe.dci h.ti, h.kd, h.tied⟩
+  | complete ids => exact ⟨step_safe caps cp _ h.safe hop, step_TI cp _ h.safe.dci h.ti, h.kd, h.tied⟩
+  | cuRoom n => exact ⟨step_safe caps cp _ h.safe hop, step_TI cp _ h.safe.dci h.ti, h.kd, h.tied⟩
+  | drvRoom n => exact ⟨step_safe caps cp _ h.safe hop, step_TI cp _ h.safe.dci h.ti, h.kd, h.tied⟩
+
+theorem run_acc {S} (caps : List (List Nat)) : ∀ (ops : List Op) (cp : CP), Acc caps S cp →
+    (∀ k, Op.launch k ∈ ops → KernOK k ∧ k.wx ≤ 1024) → Acc caps S (run cp ops) := by
+  intro ops
+  induction ops with
+  | nil => intro cp h _; exact h
+  | cons op ops ih =>
+    intro cp h hops
+    show Acc caps S (run (step cp op) ops)
+    apply ih
+    · exact step_acc caps cp op h (fun k hk => hops k (by rw [hk]; exact List.mem_cons_self))
+    · intro k hk; exact hops k (List.mem_cons_of_mem _ hk)
+
+/-- **in every reachable state every dispatching kernel passed the fit check** -/
+theorem acc_run (caps : List (List Nat)) (cfg : Cfg) (nd : Nat) (pool : List CU) (ops : List Op)
+    (hempty : ∀ cu ∈ pool, cu.resident = []) (hp : PoolInv caps pool)
+    (hops : ∀ k, Op.launch k ∈ ops → KernOK k ∧ k.wx ≤ 1024) :
+    Acc caps (pool.map CU.shapes) (run (mkCP cfg nd pool) ops) :=
+  run_acc caps ops _ ⟨mkCP_safe caps cfg nd pool hempty hp, mkCP_TI cfg nd pool hempty,
+    (mkCP_KQ _ cfg nd pool).kd, (mkCP_TI cfg nd pool hempty).tied rfl⟩ hops
+
+/-- a tick of a fault-free reachable state in which every queued launch fits raises no fault -/
+theorem cpTick_fits_nofault {S} (caps : List (List Nat)) (cp : CP) (h : Acc caps S cp)
+    (hq : KQ (KernFits caps S) cp.view) (hnf : cp.fault = none) : (cpTick cp).1.fault = none := by
+  obtain ⟨s1, f1⟩ := tickDispatchers_safe_nf caps (List.range cp.disps.length) cp h.safe hnf
+  have t1 := tickDispatchers_TI (List.range cp.disps.length) cp h.safe.dci h.ti
+  have q1 := KQ_steps (tickDispatchers_steps (List.range cp.disps.length) cp h.safe.dci) hq
+  unfold cpTick
+  have hf : ¬ (tickDispatchers (List.range cp.disps.length) cp).1.fault.isSome = true := by rw [f1]; simp
+  simp only [hf, Bool.false_eq_true, if_false]
+  have e1 := handleLaunch_of_kernFits caps S _ (s1.inv.pool s1.notTwice) t1.shapes
+    (fun k hk => ⟨s1.inv.drv k hk, q1.1 k hk⟩)
+  have s2 := handleLaunch_safe caps _ s1
+  have t2 := handleLaunch_TI _ t1
+  have q2 := KQ_steps (handleLaunch_steps (tickDispatchers (List.range cp.disps.length) cp).1) q1
+  have f2 : (handleLaunch (tickDispatchers (List.range cp.disps.length) cp).1).1.fault = none := by
+    rw [e1, handleLaunchOld_fault]; exact f1
+  have e2 := handleLaunch_of_kernFits caps S _ (s2.inv.pool s2.notTwice) t2.shapes
+    (fun k hk => ⟨s2.inv.drv k hk, q2.1 k hk⟩)
+  rw [e2, handleLaunchOld_fault]; exact f2
+
+theorem run_fits_nofault_aux {S} (caps : List (List Nat)) : ∀ (ops : List Op) (cp : CP), Acc caps S cp →
+    KQ (KernFits caps S) cp.view → cp.fault = none →
+    (∀ k, Op.launch k ∈ ops → KernOK k ∧ k.wx ≤ 1024 ∧ KernFits caps S k) → (run cp ops).fault = none := by
+  intro ops
+  induction ops with
+  | nil => intro cp _ _ hnf _; exact hnf
+  | cons op ops ih =>
+    intro cp h hq hnf hops
+    show (run (step cp op) ops).fault = none
+    have hop : ∀ k, op = .launch k → KernOK k ∧ k.wx ≤ 1024 := fun k hk =>
+      ⟨(hops k (by rw [hk]; exact List.mem_cons_self)).1, (hops k (by rw [hk]; exact List.mem_cons_self)).2.1⟩
+    have hq' : KQ (KernFits caps S) (step cp op).view :=
+      run_KQ [op] cp h.safe.dci (fun k hk => by
+        have : op = .launch k := (List.mem_singleton.1 hk).symm
+        exact (hops k (by rw [this]; exact List.mem_cons_self)).2.2) hq
+    apply ih _ (step_acc caps cp op h hop) hq' ?_ (fun k hk => hops k (List.mem_cons_of_mem _ hk))
+    cases op with
+    | tick => exact cpTick_fits_nofault caps cp h hq hnf
+    | launch k => exact hnf
+    | complete ids => exact hnf
+    | cuRoom n => exact hnf
+    | drvRoom n => exact hnf
+
+/-- **kernels that fit are never rejected, and no other Go panic is reachable**: pool initially
+    without residents, every launched kernel well formed, at most 1024 work-items per group, every
+    work-group fits some CU — then no state of any run carries a fault -/
+theorem run_fits_nofault (caps : List (List Nat)) (cfg : Cfg) (nd : Nat) (pool : List CU)
+    (hempty : ∀ cu ∈ pool, cu.resident = []) (hp : PoolInv caps pool) (ops : List Op)
+    (hops : ∀ k, Op.launch k ∈ ops → KernOK k ∧ k.wx ≤ 1024 ∧ KernFits caps (pool.map CU.shapes) k) :
+    (run (mkCP cfg nd pool) ops).fault = none :=
+  run_fits_nofault_aux caps ops _ ⟨mkCP_safe caps cfg nd pool hempty hp, mkCP_TI cfg nd pool hempty,
+    (mkCP_KQ _ cfg nd pool).kd, (mkCP_TI cfg nd pool hempty).tied rfl⟩ (mkCP_KQ _ cfg nd pool) rfl hops
 
 /-! ## disjointness of what two holders hold -/
 
@@ -263,13 +446,70 @@ theorem fair_run_answers_safe (caps : List (List Nat)) (cfg : Cfg) (nd : Nat) (p
   apply fair_run_answers_fits caps cfg nd pool ops0 sched hnd hempty hp
     (fun k hk => ⟨(hops k hk).1, (hops k hk).2.2⟩) hnl _ hfair
   intro n
-  refine (safe_run caps cfg nd pool _ hempty hp ?_).nf
+  refine run_fits_nofault caps cfg nd pool hempty hp _ ?_
   intro k hk
   rcases List.mem_append.1 hk with h | h
-  · exact ⟨(hops k h).1, (hops k h).2.1⟩
+  · exact hops k h
   · exfalso
     simp only [prefixOf, List.mem_map] at h
     obtain ⟨m, _, hm⟩ := h
     exact hnl m k hm
+
+/-- **liveness without any fit hypothesis** (helper form): a launch is rejected loudly, or every launch is
+    answered -/
+theorem fair_run_answers_accepted (caps : List (List Nat)) (cfg : Cfg) (nd : Nat) (pool : List CU)
+    (ops0 : List Op) (sched : Nat → Op) (hnd : 0 < nd)
+    (hempty : ∀ cu ∈ pool, cu.resident = []) (hp : PoolInv caps pool)
+    (hops : ∀ k, .launch k ∈ ops0 → KernOK k ∧ k.wx ≤ 1024)
+    (hnl : ∀ n k, sched n ≠ .launch k)
+    (hfair : ∀ n, ∃ m, n ≤ m ∧ sched m = .tick ∧ EnvReady (run (mkCP cfg nd pool) (ops0 ++ prefixOf sched m))) :
+    ∃ N, (run (mkCP cfg nd pool) (ops0 ++ prefixOf sched N)).fault = some "oversize" ∨
+      AllAnswered (run (mkCP cfg nd pool) (ops0 ++ prefixOf sched N)) := by
+  let st : Nat → CP := fun n => run (mkCP cfg nd pool) (ops0 ++ prefixOf sched n)
+  have hst : ∀ n, st (n + 1) = step (st n) (sched n) := fun n => run_prefix_succ _ ops0 sched n
+  have hdc : ∀ n, DCI (st n) := fun n => dci_run cfg nd pool _
+  have hops' : ∀ n k, Op.launch k ∈ ops0 ++ prefixOf sched n → KernOK k ∧ k.wx ≤ 1024 := by
+    intro n k hk
+    rcases List.mem_append.1 hk with h | h
+    · exact hops k h
+    · exfalso
+      simp only [prefixOf, List.mem_map] at h
+      obtain ⟨m, _, hm⟩ := h
+      exact hnl m k hm
+  have hacc : ∀ n, Acc caps (pool.map CU.shapes) (st n) := fun n =>
+    acc_run caps cfg nd pool _ hempty hp (hops' n)
+  have hle : ∀ n, (st (n + 1)).view.mu = (st n).view.mu ∨ lt3 (st (n + 1)).view.mu (st n).view.mu := by
+    intro n
+    rw [hst n]
+    cases hs : sched n with
+    | tick =>
+      show (cpTick (st n)).1.view.mu = _ ∨ lt3 (cpTick (st n)).1.view.mu _
+      obtain ⟨m1, m2⟩ := cpTick_mu (st n) (hdc n)
+      cases hb : (cpTick (st n)).2 with
+      | true => exact Or.inr (m1 hb)
+      | false => left; rw [m2 hb]
+    | launch k => exact absurd hs (hnl n k)
+    | complete ids => exact Or.inl rfl
+    | cuRoom x => exact Or.inl rfl
+    | drvRoom x => exact Or.inl rfl
+  obtain ⟨N, hN⟩ := eventually_stable (fun n => (st n).view.mu) hle
+  obtain ⟨m, hm, htick, henv⟩ := hfair N
+  have hnp : (cpTick (st m)).2 = false := by
+    cases hb : (cpTick (st m)).2 with
+    | false => rfl
+    | true =>
+      exfalso
+      have := (cpTick_mu (st m) (hdc m)).1 hb
+      apply hN m hm
+      show lt3 (st (m + 1)).view.mu (st m).view.mu
+      rw [hst m, htick]; exact this
+  have e : st (m + 1) = (cpTick (st m)).1 := by rw [hst m, htick]; rfl
+  rcases (hacc (m + 1)).safe.nf with hf | hf
+  · refine ⟨m, Or.inr ?_⟩
+    have hf' : (cpTick (st m)).1.fault = none := by rw [← e]; exact hf
+    have hlen : 0 < (st m).disps.length := by
+      have := fair_len cfg nd pool (ops0 ++ prefixOf sched m); show 0 < (run _ _).disps.length; omega
+    exact no_stuck_fits_core true caps _ (hdc m) (hacc m).ti (hacc m).safe.inv (hacc m).kd hlen hnp hf' henv
+  · exact ⟨m + 1, Or.inl hf⟩
 
 end C09
